@@ -124,7 +124,7 @@ fn pow2(rng: &mut Rng) -> f64 {
     *rng.pick(&[0.25, 0.5, 2.0, 4.0, 8.0])
 }
 
-fn sampled(rng: &mut Rng) -> Scenario {
+pub(crate) fn sampled(rng: &mut Rng) -> Scenario {
     let m = gen_method(rng);
     let family = rng.int(0, 3);
     let class = if family == 2 { ProbClass::LinHom } else { ProbClass::Smooth };
